@@ -144,14 +144,86 @@ pub fn strategy() -> impl Strategy<Value = Case> {
     let odd = (prop::sample::select(vec![RKind::SintFx(32), RKind::UintFx(64)]), g::f32_bits(), offsets(), g::kind()).prop_flat_map(|(kind, q, off, vk)| {
         g::value_for(vk, 20).prop_map(move |val| Case { kind, fixp: Some((q, off, false)), vbits: 8, val })
     });
-    prop_oneof![8 => fixed, 2 => other, 1 => odd]
+    prop_oneof![8 => fixed, 2 => other, 1 => odd, 2 => window_edges(), 1 => just_below_integer()]
+}
+
+/// products that land exactly on / next to the edges of the window the statement fixes (0, 2^31, 2^32, 2^53, 2^63, 2^64):
+/// value = target / 2^k, quantization = 2^k, offsets that cross or just stay inside the edge
+fn window_edges() -> impl Strategy<Value = Case> {
+    let deltas = vec![0i128, 1, 2, 255, 1024, 2048, 32767, 32768, 65536, (1 << 31) - 1, 1 << 31, (1 << 31) + 128, 1 << 32];
+    (
+        prop::sample::select(vec![0u32, 31, 32, 52, 53, 62, 63, 64]),
+        prop::sample::select(deltas.clone()),
+        any::<bool>(),
+        0u32..40,
+        prop_oneof![3 => prop::sample::select(deltas).prop_map(|d| d as i64), 1 => Just(i32::MAX as i64), 1 => Just(i64::MAX), 1 => any::<i32>().prop_map(|x| x as i64)],
+        any::<bool>(),
+        any::<bool>(),
+        any::<bool>(),
+    )
+        .prop_map(|(e, d, below, k, off, neg_off, is64, signed)| {
+            let edge: i128 = if e == 0 { 0 } else { 1i128 << e };
+            let target = if below { edge - d } else { edge + d }.max(0) as u128;
+            // split into value * 2^k with the value in 64 bits
+            let k = k.min(target.trailing_zeros().min(60));
+            let mut v = target >> k;
+            let mut k = k;
+            while v > u64::MAX as u128 {
+                v >>= 1;
+                k += 1;
+            }
+            let q = (2f32).powi(k as i32).to_bits();
+            let vbits: u8 = if v < (1 << 32) && !is64 { 32 } else { 64 };
+            let kind = match (signed && v < (1u128 << (vbits - 1)), vbits) {
+                (true, b) => RKind::SintFx(b),
+                (false, b) => RKind::UintFx(b),
+            };
+            let val = if matches!(kind, RKind::SintFx(_)) { RVal::I(v as i128) } else { RVal::U(v) };
+            let off = if neg_off { off.checked_neg().unwrap_or(i64::MIN) } else { off };
+            Case { kind, fixp: Some((q, off, is64)), vbits, val }
+        })
+}
+
+/// value x quantization = n - 2^-k for k >= 30: mathematically just below an integer, so the truncated product is n - 1
+/// (value * m = n * 2^k - 1 with m < 2^24, i.e. the quantization m * 2^-k is exactly representable in f32)
+fn just_below_integer() -> impl Strategy<Value = Case> {
+    static TABLE: std::sync::OnceLock<Vec<(u64, u32, u32)>> = std::sync::OnceLock::new();
+    let table = TABLE.get_or_init(|| {
+        let mut t = vec![];
+        for k in 30u32..=46 {
+            for n in 1u64..=6 {
+                let big = n * (1u64 << k) - 1;
+                // divisors m < 2^24 of `big` whose cofactor fits 32 bits (or 64 bits for the wide kinds)
+                let mut m = 3u64;
+                while m < (1 << 24) && t.len() < 4000 {
+                    if big % m == 0 {
+                        let v = big / m;
+                        if v > 1 {
+                            t.push((v, m as u32, k));
+                        }
+                    }
+                    m += 2;
+                }
+            }
+        }
+        t
+    });
+    (prop::sample::select(table.clone()), -1000i64..1000, any::<bool>(), any::<bool>()).prop_map(|((v, m, k), off, is64, signed)| {
+        let q = ((m as f64) * (2f64).powi(-(k as i32))) as f32;
+        let vbits: u8 = if v < (1 << 32) && !is64 { 32 } else { 64 };
+        let fits_signed = (v as u128) < (1u128 << (vbits - 1));
+        let kind = if signed && fits_signed { RKind::SintFx(vbits) } else { RKind::UintFx(vbits) };
+        let val = if matches!(kind, RKind::SintFx(_)) { RVal::I(v as i128) } else { RVal::U(v as u128) };
+        Case { kind, fixp: Some((q.to_bits(), off, is64)), vbits, val }
+    })
 }
 
 pub fn run(run: &Run) {
     run.rule(
         "cases = arguments of every kind; fixed-point kinds with every integer variant/width (boundaries and random), quantization = arbitrary \
          f32 bit pattern biased to 'nice' values, offsets i32/i64 incl. negative and extremes, also mismatched / missing fixed-point data and \
-         non-integer values; non-trivial = fixed point inside the exactness window with a negative offset or non-integral quantization; \
+         non-integer values; products placed on and next to the edges of the exactness window (0, 2^31, 2^32, 2^53, 2^63, 2^64 +- small) with \
+         offsets that cross them; products n - 2^-k (k >= 30) just below an integer; non-trivial = fixed point inside the exactness window with a negative offset or non-integral quantization; \
          distinct by the whole case",
     );
     run.assume("reference: trunc((value as f64) * (quantization as f64)) + offset in i128, asserted only inside the window the statement fixes (product finite and >= 0, sum in 0..2^63, value an 8..64-bit integer); outside it only 'no panic' and 'Some implies fixed-point kind with data and integer value'");
